@@ -25,6 +25,14 @@ FIELD_MAPPING = {
 CUSTOM_MAP = {"jobId": "JID", "eventId": "EID", "timestamp": "when", "previousEventIds": "after", "applicationName": "appl",
               "jobName": "workflow", "eventType": "kind"}
 DEFAULT_MAP = {k: k for k in CUSTOM_MAP}
+# custom mappings: fresh names; names that are the default names of *other* fields; a swap; a partial mapping
+CUSTOM_MAPS = [
+    CUSTOM_MAP,
+    dict(DEFAULT_MAP, eventType="jobName", jobName="workflowName"),
+    dict(DEFAULT_MAP, jobId="eventId", eventId="jobId"),
+    dict(DEFAULT_MAP, timestamp="applicationName", applicationName="app", previousEventIds="prev"),
+    dict(DEFAULT_MAP, eventType="kind"),
+]
 
 
 def dataset(rnd, nwf=(2, 3)):
@@ -60,6 +68,7 @@ def dataset(rnd, nwf=(2, 3)):
 
 
 def write_case(d, docs, async_flag, custom):
+    """custom: None (no mapping file) or a mapping dict"""
     import yaml
     os.makedirs(os.path.join(d, "data"))
     for i, doc in enumerate(docs):
@@ -76,7 +85,7 @@ def write_case(d, docs, async_flag, custom):
             yaml.safe_dump(cfg, fh)
     if custom:
         with open(os.path.join(d, "mapping.yaml"), "w") as fh:
-            yaml.safe_dump(CUSTOM_MAP, fh)
+            yaml.safe_dump(custom, fh)
 
 
 def cli(args, cwd):
